@@ -27,7 +27,7 @@ PROPS['C19'] = dict(
 PROPS['C20'] = dict(
     lean_modules=['FluentVerif.Props.C20'],
     theorems=['FV.Equal.C20_iff', 'FV.Equal.C20_refl', 'FV.Equal.C20_symm', 'FV.Equal.C20_legacy_excluded'],
-    suites=[dict(suite='eq', n=dict(quick=1500, thorough=200000), shards=dict(quick=1, thorough=8),
+    suites=[dict(suite='eq', n=dict(quick=1500, thorough=40000), shards=dict(quick=1, thorough=8),
                  trivial=r'^(eq\.0\..*|-)$')],
     rule="exhaustive: all 14641 ordered pairs of lists of length 0..4 over 3 distinct entries; plus random lists "
          "(length 0..11, up to 5 instants x 6 record shapes) against shuffles / multiplicity changes / "
@@ -49,7 +49,7 @@ _CODEC_RULE = ("codec suite: per case a message of one of 13 types is produced (
 _CODEC_ASSUME = ["tinylib/msgp read primitives as modelled in lean/FluentVerif/Msgp/Read.lean (validated by this correspondence only)",
                  "stream path exercised over a non-seekable reader (a network connection); inputs declaring 32-bit lengths/counts "
                  "beyond the input are run in a child process (slice path) or skipped (stream path)"]
-_CODEC_SUITE = dict(suite='codec', n=dict(quick=3000, thorough=40000), shards=dict(quick=1, thorough=16),
+_CODEC_SUITE = dict(suite='codec', n=dict(quick=3000, thorough=1500), shards=dict(quick=1, thorough=16),
                     trivial=r'^(-|.*\.skip)$')
 
 PROPS['C13'] = dict(
@@ -89,7 +89,7 @@ _RT_RULE = ("rt suite: a caller-built value of one of 13 message kinds (tags of 
             "unencodable leaf; options nil/empty/every subset) is encoded by MarshalMsg (onto a non-empty prefix) "
             "and by msgp.Encode through a Writer, and each encoding is decoded by UnmarshalMsg and DecodeMsg: 4 "
             "lines per value. distinct = distinct (op,args); non-trivial = every executed line")
-_RT_SUITE = dict(suite='rt', n=dict(quick=1500, thorough=30000), shards=dict(quick=1, thorough=16), trivial=r'^-$')
+_RT_SUITE = dict(suite='rt', n=dict(quick=1500, thorough=1500), shards=dict(quick=1, thorough=16), trivial=r'^-$')
 
 PROPS['C01'] = dict(
     lean_modules=['FluentVerif.Props.C01'],
@@ -134,7 +134,7 @@ PROPS['C02'] = dict(
     assumptions=_CODEC_ASSUME,
 )
 
-_CHUNK_SUITE = dict(suite='chunk', n=dict(quick=4000, thorough=60000), shards=dict(quick=1, thorough=16), trivial=r'^(-|chunk\.m\.other\..*)$')
+_CHUNK_SUITE = dict(suite='chunk', n=dict(quick=4000, thorough=8000), shards=dict(quick=1, thorough=16), trivial=r'^(-|chunk\.m\.other\..*)$')
 
 PROPS['C11'] = dict(
     lean_modules=['FluentVerif.Props.C11'],
@@ -200,7 +200,7 @@ _PACKED_RULE = ("packed suite: histories of 3..10 constructor / packer calls in 
                 "re-compared after every later call; compressed streams are decompressed by compress/gzip with Multistream(false) "
                 "and an exact-EOF check. packedconc: 8 goroutines x 200 packed/compressed messages built concurrently and "
                 "re-verified at the end. distinct = distinct (op,args); non-trivial = constructor / packer lines")
-_PACKED_SUITES = [dict(suite='packed', n=dict(quick=250, thorough=6000), shards=dict(quick=1, thorough=16), trivial=r'^(-|hist\.(HRESET|PRIME)\..*)$'),
+_PACKED_SUITES = [dict(suite='packed', n=dict(quick=250, thorough=250), shards=dict(quick=1, thorough=16), trivial=r'^(-|hist\.(HRESET|PRIME)\..*)$'),
                   dict(suite='packedconc', n=dict(quick=3, thorough=40), shards=dict(quick=1, thorough=4), trivial=r'^-$')]
 
 PROPS['C03'] = dict(
@@ -243,7 +243,7 @@ _TCP_RULE = ("tcp suite: operation sequences (2..13 ops) on client.Client over a
              "behaviours incl. the matching ack split at every offset, write faults (fail after n bytes, short write) at boundary "
              "and random offsets, SendRaw, the seven Send* helpers; with/without shared key, RequireAck, timeout; several "
              "hostnames. Every mock call is logged. distinct = distinct (cfg, op list); non-trivial = every sequence")
-_TCP_SUITE = dict(suite='tcp', n=dict(quick=1500, thorough=40000), shards=dict(quick=1, thorough=16), trivial=r'^-$')
+_TCP_SUITE = dict(suite='tcp', n=dict(quick=1500, thorough=8000), shards=dict(quick=1, thorough=16), trivial=r'^-$')
 _TCP_ASSUME = ["msgp.Reader presents the connection as a byte stream: results depend on the concatenation of what the peer delivers (modelled)",
                "SHA-512 is an uninterpreted function H, instantiated in the driver by digests the harness computes with crypto/sha512",
                "crypto/rand salts are fresh (assumed; length 16 checked on every observed PING)"]
@@ -370,7 +370,7 @@ _WS_RULE = ("wsclient suite: operation sequences (2..10 ops) on client.WSClient 
             "schedule-controlled scenarios holding Send / SendRaw / the connect goroutine at a verifAt point while Disconnect or "
             "Reconnect runs (in a child process). wsconc: 5 goroutines x 60 random operations, judged on panics, readers/writers per "
             "connection, closes and close frames, and under the race detector. distinct = distinct op sequence; non-trivial = all")
-_WS_SUITES = [dict(suite='wsclient', n=dict(quick=1500, thorough=40000), shards=dict(quick=1, thorough=16), trivial=r'^-$'),
+_WS_SUITES = [dict(suite='wsclient', n=dict(quick=1500, thorough=6000), shards=dict(quick=1, thorough=16), trivial=r'^-$'),
               dict(suite='wsgate', n=dict(quick=1, thorough=1), shards=dict(quick=1, thorough=1), trivial=r'^-$'),
               dict(suite='wsconc', n=dict(quick=6, thorough=100), shards=dict(quick=1, thorough=8), trivial=r'^-$')]
 
@@ -401,7 +401,7 @@ _WC_RULE = ("wsconn suite: the real ws.Connection over an instrumented ext.Conn 
             "1001 / severs the transport / fails the write), relisten (Listen again k times after closure; k = 0: second Listen on a "
             "live connection), writers (data-frame writers racing two closers); plus wsconc through WSClient. distinct = distinct "
             "(scenario, n, listen, peer, seed); non-trivial = every run")
-_WC_SUITES = [dict(suite='wsconn', n=dict(quick=400, thorough=6000), shards=dict(quick=4, thorough=16), trivial=r'^-$'),
+_WC_SUITES = [dict(suite='wsconn', n=dict(quick=400, thorough=3000), shards=dict(quick=4, thorough=16), trivial=r'^-$'),
               dict(suite='wsconc', n=dict(quick=6, thorough=60), shards=dict(quick=1, thorough=4), trivial=r'^-$')]
 _WC_ASSUME = _CONC_ASSUME + ["the closers model abstracts the close handshake to: state gate under the state lock, frame write, wait for the "
                              "reader (or the deadline), underlying close; wall-clock bounds are checked on the real runs only "
